@@ -103,6 +103,13 @@ type World struct {
 	vioFault *OpFault
 	confineRoot string // when set, file-system calls must stay below it (C19); default: the run's scratch root
 
+	// fire-and-forget clean-up goroutines of the engine (verifos.GoFS): started at a point the seed decides
+	driverG    uint64
+	deferred   []func()
+	deferCount int
+	deferMode  int // 0 at the spawn point, 1 after deferK further file events of the driver, 2 when the op has returned
+	deferK     int
+
 	evMu   sync.Mutex
 	Events []EvRec // disk events of the current op window
 	evHook func(ev *verifos.Event) verifos.Action
@@ -164,7 +171,72 @@ func newWorld(t *testing.T, prop string, seed int64) *World {
 	}
 	w := &World{T: t, Prop: prop, Seed: seed, R: rand.New(rand.NewSource(seed)), Scratch: sc, Dir: filepath.Join(sc, "data")}
 	w.Res = &Result{Prop: prop, Seed: seed, OK: true, Stats: map[string]int64{}, Probes: map[string]int64{}, Faults: map[string]int64{}}
+	// derived from the seed without drawing from w.R (the op generators own that stream)
+	h := uint64(seed)*0x9E3779B97F4A7C15 + 0x632BE59BD9B4E019
+	h ^= h >> 29
+	w.deferMode = int(h % 3)
+	w.deferK = 1 + int((h>>8)%6)
+	activeWorld = w
+	verifsync.SetSelSeed(h | 1)
 	return w
+}
+
+// activeWorld is the world of the run in progress (runs of a process are sequential).
+var activeWorld *World
+
+// installGoCtl takes charge of the engine's fire-and-forget clean-up goroutines
+// (arena directory removal after VDeleteIndex and VCompress) when they are
+// spawned by the driver goroutine of a single-driver run: instead of racing with
+// the driver under the Go scheduler they are started at the spawn point, after a
+// seeded number of further file events of the driver, or when the operation has
+// returned, and run to completion while the driver waits.
+func (w *World) installGoCtl() {
+	w.driverG = verifsync.Goid()
+	verifos.SetGoCtl(func(f func()) bool {
+		if verifsync.Cur() != nil || verifsync.Goid() != w.driverG {
+			return false
+		}
+		w.Stat("cleanup_goroutines", 1)
+		if w.deferMode == 0 {
+			runToCompletion(f)
+			return true
+		}
+		w.deferred = append(w.deferred, f)
+		w.deferCount = w.deferK
+		return true
+	})
+	verifos.SetPre(func(ev *verifos.Event) {
+		if len(w.deferred) == 0 || w.deferMode != 1 || verifsync.Goid() != w.driverG {
+			return
+		}
+		w.deferCount--
+		if w.deferCount <= 0 {
+			w.flushDeferred()
+		}
+	})
+}
+
+func removeGoCtl() {
+	verifos.SetGoCtl(nil)
+	verifos.SetPre(nil)
+}
+
+func runToCompletion(f func()) {
+	done := make(chan struct{})
+	go func() {
+		defer close(done)
+		f()
+	}()
+	<-done
+}
+
+// flushDeferred starts the clean-up goroutines that are still waiting, in spawn order.
+func (w *World) flushDeferred() {
+	for len(w.deferred) > 0 {
+		f := w.deferred[0]
+		w.deferred = w.deferred[1:]
+		runToCompletion(f)
+	}
 }
 
 func (w *World) cleanup() {
@@ -286,6 +358,11 @@ func bubble(t *testing.T, f func()) (panicked any, stack string) {
 					innerStack = string(debug.Stack())
 				}
 			}()
+			if w := activeWorld; w != nil {
+				w.installGoCtl()
+				defer removeGoCtl()
+				defer w.flushDeferred()
+			}
 			f()
 		})
 	}()
@@ -301,6 +378,9 @@ func settle() {
 		time.Sleep(20 * time.Millisecond)
 		return
 	}
+	if w := activeWorld; w != nil && len(w.deferred) > 0 && verifsync.Goid() == w.driverG {
+		w.flushDeferred()
+	}
 	synctest.Wait()
 }
 
@@ -309,6 +389,9 @@ func advance(d time.Duration) {
 	if realTime {
 		time.Sleep(min(d, 5*time.Millisecond))
 		return
+	}
+	if w := activeWorld; w != nil && len(w.deferred) > 0 && verifsync.Goid() == w.driverG {
+		w.flushDeferred()
 	}
 	if d > 0 {
 		time.Sleep(d)
